@@ -62,13 +62,16 @@ type SendRec struct {
 type ReplyFunc func(n int, req []byte) ([]byte, error)
 
 type T struct {
-	mu       sync.Mutex
-	Sends    []SendRec
-	Reply    ReplyFunc
-	Mode     Delivery
-	Poison   byte
-	PoisonFn func(i int) byte // overrides Poison when set
-	buf      [512]byte
+	// BlockOnLoss makes a lost reply take as long as it does on a socket: Send returns
+	// its timeout error only when the attempt context is done.
+	BlockOnLoss bool
+	mu          sync.Mutex
+	Sends       []SendRec
+	Reply       ReplyFunc
+	Mode        Delivery
+	Poison      byte
+	PoisonFn    func(i int) byte // overrides Poison when set
+	buf         [512]byte
 	// BeforeReply is called with the 1-based transmission count after the send
 	// was recorded and before the reply is produced (used to cancel contexts at
 	// a scripted step or to yield the processor).
@@ -164,6 +167,10 @@ func (t *T) Send(ctx context.Context, b []byte) ([]byte, error) {
 	rsp, err := t.Reply(n, req)
 	if err == nil && rsp == nil {
 		err = ErrLost
+		if t.BlockOnLoss {
+			// as on a socket: the read blocks until the attempt's deadline
+			<-ctx.Done()
+		}
 	}
 	t.mu.Lock()
 	t.Sends[idx].Err = err
